@@ -3,7 +3,7 @@ from __future__ import annotations
 
 ID = "C44"
 BOUNDS = {
-    "quick": "simulated bus of up to 3 devices with symbolic 16-bit individual addresses, symbolic programming-mode flags and a symbolic behaviour on a connection attempt {answers the descriptor read, refuses (T_Disconnect) while the request is sent or when the connection closes, silent}; symbolic target address; nm_individual_address_write, nm_individual_address_check, nm_individual_address_read as real coroutines against this bus; serial-number read/write against up to 2 responses with symbolic 48-bit serials and source addresses; dmp_authorize2_r_co for all level triples 0..15",
+    "quick": "simulated bus of up to 3 devices with symbolic 16-bit individual addresses, symbolic programming-mode flags and a symbolic behaviour on a connection attempt {answers the descriptor read, refuses (T_Disconnect) while the request is sent or when the connection closes - with or without acknowledging the request first -, silent}; symbolic target address; nm_individual_address_write, nm_individual_address_check, nm_individual_address_read as real coroutines against this bus; serial-number read/write against up to 2 responses with symbolic 48-bit serials and source addresses; dmp_authorize2_r_co for all level triples 0..15",
     "thorough": "same (complete for the stated environment)",
 }
 OUTSIDE = "buses with more than three devices; timing of responses inside the 3 s collection window (the simulated broadcast context yields its responses and ends); transport-layer details of the connection (C43)"
@@ -63,7 +63,7 @@ def run_job(job, rep):
                     self.address = address
 
                 async def request(self, payload):
-                    if dev is None or dev["beh"] == 2:
+                    if dev is None or dev["beh"] in (2, 4):
                         raise ManagementConnectionTimeout("no ACK")
                     if dev["beh"] == 1:
                         raise ManagementConnectionRefused("disconnected by peer")
@@ -72,7 +72,7 @@ def run_job(job, rep):
                 async def send_data(self, payload, wait_for_ack=True):
                     bus.restarts.append((address.raw, payload))
             yield Conn()
-            if dev is not None and dev["beh"] == 3:
+            if dev is not None and dev["beh"] in (3, 4):
                 raise ManagementConnectionRefused("Management connection disconnected by the peer.")
 
         @contextlib.asynccontextmanager
@@ -94,7 +94,7 @@ def run_job(job, rep):
         n = job["n"]
 
         def run(c):
-            devices = [dict(addr=c.fresh_int(f"addr{i}", 1, 65534), prog=c.fresh_bool(f"prog{i}"), beh=core.concretize(c.fresh_int(f"beh{i}", 0, 3))) for i in range(n)]
+            devices = [dict(addr=c.fresh_int(f"addr{i}", 1, 65534), prog=c.fresh_bool(f"prog{i}"), beh=core.concretize(c.fresh_int(f"beh{i}", 0, 4))) for i in range(n)]
             target = c.fresh_int("target", 1, 65534)
             bus = Bus(devices)
             xk = types.SimpleNamespace(management=bus)
@@ -123,7 +123,7 @@ def run_job(job, rep):
             writes = [b for b in bus.broadcasts if isinstance(b, apci.IndividualAddressWrite)]
             devs, tgt = n_["devices"], n_["target"]
             n_prog = sum(core.ite(d["prog"], 1, 0) for d in devs) if devs else 0
-            occupied = core.sym_or(*[core.sym_and(d["addr"] == tgt, d["beh"] in (0, 1, 3)) for d in devs]) if devs else False
+            occupied = core.sym_or(*[core.sym_and(d["addr"] == tgt, d["beh"] in (0, 1, 3, 4)) for d in devs]) if devs else False
             conds = []
             if writes:
                 rep.reach["written"] += 1
@@ -246,7 +246,7 @@ def replay(case):
                     self.address = address
 
                 async def request(self, payload):
-                    if dev is None or dev["beh"] == 2:
+                    if dev is None or dev["beh"] in (2, 4):
                         raise ManagementConnectionTimeout("no ACK")
                     if dev["beh"] == 1:
                         raise ManagementConnectionRefused("refused")
@@ -255,7 +255,7 @@ def replay(case):
                 async def send_data(self, payload, wait_for_ack=True):
                     bus.restarts.append((address.raw, payload))
             yield Conn()
-            if dev is not None and dev["beh"] == 3:
+            if dev is not None and dev["beh"] in (3, 4):
                 raise ManagementConnectionRefused("disconnected by the peer")
 
         @contextlib.asynccontextmanager
@@ -283,7 +283,7 @@ def replay(case):
                 pass
             writes = [b for b in bus.broadcasts if isinstance(b, apci.IndividualAddressWrite)]
             n_prog = sum(1 for d in case["devices"] if d["prog"])
-            occupied = any(d["addr"] == case["target"] and d["beh"] in (0, 1, 3) for d in case["devices"])
+            occupied = any(d["addr"] == case["target"] and d["beh"] in (0, 1, 3, 4) for d in case["devices"])
             if writes and (n_prog != 1 or occupied or writes[0].address.raw != case["target"] or len(writes) != 1):
                 return True, f"address {IndividualAddress(case['target'])} written with {n_prog} devices in programming mode, target occupied={occupied}; bus {case['devices']}"
             if any(a != case["target"] for a, _ in bus.restarts) or len(bus.restarts) > 1:
